@@ -110,7 +110,12 @@ int main(int argc, char **argv)
 		static char line[200000];
 		long n = 0;
 		if (!it || jwks_item_error(it) || !c || !f) vh_harness_fail("verdicts: cannot load key or token file");
-		if (jwt_checker_setkey(c, jwks_item_alg(it), it)) vh_harness_fail("verdicts: setkey: %s", jwt_checker_error_msg(c));
+		/* --n: the algorithm the -a/--algorithm option names (0: option not given), passed to setkey as the tool passes it */
+		{
+			int src = jwt_checker_setkey(c, (jwt_alg_t)(a.n > 0 ? a.n : 0), it);
+			printf("[\"VS\",%d]\n", src != 0);
+			if (src) { fclose(f); jwt_checker_free(c); jwks_free(s); return 0; }
+		}
 		while (fgets(line, sizeof(line), f)) {
 			line[strcspn(line, "\n")] = 0;
 			printf("[\"VD\",%ld,%d]\n", n++, jwt_checker_verify(c, line) ? 1 : 0);
